@@ -5,7 +5,7 @@ from __future__ import annotations
 import ast
 import itertools
 
-from sa.core import AnalysisError, Report, loc, norm_src
+from sa.core import inlined_src, AnalysisError, Report, loc, norm_src
 from sa.absint import Interp, AType, AExpr, Unsupported, PyRaise
 from sa.targets_model import Target, kind_arities, reduce_term, Unknown, show_sem
 from sa.oracles import targets as O
@@ -181,23 +181,20 @@ def run(repo, tier):
     cd = [c for c in calls_in(base) if (call_name(c) or "").endswith("check_dtype")]
     if len(cd) != 1:
         raise AnalysisError("PrinterBase.tostring: check_dtype call not found")
-    a0, a1 = norm_src(cd[0].args[0]), norm_src(cd[0].args[1])
+    a0, a1 = inlined_src(cd[0].args[0], base), inlined_src(cd[0].args[1], base)
     r.ob("R8.3", "targets/base.py::PrinterBase.tostring check_dtype(expr.ref, self.get_type(expr))", a0 == "expr.ref" and a1 == "self.get_type(expr)", f"check_dtype({a0}, {a1})", loc("targets/base.py", cd[0]))
     # the assertion is emitted after the assignment of the same ref
     asg = [c for c in calls_in(base) if (call_name(c) or "").endswith("make_assignment")]
-    ok = any(norm_src(c.args[0]) == "self.get_type(expr)" and norm_src(c.args[1]) == "expr.ref" for c in asg)
+    ok = any(inlined_src(c.args[0], base) == "self.get_type(expr)" and inlined_src(c.args[1], base) == "expr.ref" for c in asg)
     r.ob("R8.3", "targets/base.py::PrinterBase.tostring declares the variable with the static type", ok, "make_assignment is not called with (self.get_type(expr), expr.ref, ...)", loc("targets/base.py", base))
     chk = T.method("check_dtype")
     rv = [n for n in ast.walk(chk) if isinstance(n, ast.Return)][0].value
     txt = norm_src(rv)
     r.ob("R8.3", "targets/numpy.py::Printer.check_dtype compares .dtype with the declared type", "{var}.dtype == {dtype}" in txt.replace("'", ""), f"check_dtype emits {txt}", loc(T.rel, chk))
     ma = T.method("make_apply")
-    env = {}
-    for st in ast.walk(ma):
-        if isinstance(st, ast.Assign) and isinstance(st.targets[0], ast.Name):
-            env[st.targets[0].id] = norm_src(st.value)
-    ok = env.get("body_type") == "self.get_type(expr.operands[-1])" and any("assert result.dtype == {body_type}" in norm_src(n).replace("'", "") for n in ast.walk(ma) if isinstance(n, ast.JoinedStr))
-    r.ob("R8.3", "targets/numpy.py::Printer.make_apply result assertion", ok, f"body_type = {env.get('body_type')}", loc(T.rel, ma))
+    asserts = [inlined_src(n, ma).replace("'", "").replace('"', "") for n in ast.walk(ma) if isinstance(n, ast.JoinedStr) and "assert" in norm_src(n)]
+    ok = any("assert result.dtype == {self.get_type(expr.operands[-1])}" in t for t in asserts)
+    r.ob("R8.3", "targets/numpy.py::Printer.make_apply result assertion", ok, f"emitted assertions (locals inlined): {asserts}; expected `assert result.dtype == <type of the body>`", loc(T.rel, ma))
 
     # ------------------------------------------------------------------ R8.4 constants
     mc = T.method("make_constant")
@@ -219,6 +216,6 @@ def run(repo, tier):
     named_ok = False
     for n in ast.walk(tos):
         if isinstance(n, ast.Call) and isinstance(n.func, ast.Attribute) and n.func.attr == "format" and any(kw.arg == "type" for kw in n.keywords):
-            named_ok = any(norm_src(kw.value) == "typ" for kw in n.keywords)
+            named_ok = any(kw.arg == "type" and inlined_src(kw.value, tos) == "self.get_type(expr)" for kw in n.keywords)
     r.ob("R8.4", "targets/base.py::PrinterBase.tostring named constants are formatted with the expression's type", named_ok, "constant template is not formatted with type=self.get_type(expr)", loc("targets/base.py", tos))
     return r
